@@ -1,12 +1,15 @@
 ----------------------------- MODULE Trace_GenRun -----------------------------
-(* C2S judge for C10.  Record: [id, prefix, gens: Seq([name, prog, acl]), outcome, new]
+(* C2S judge for C10.  Record: [id, prefix, gens: Seq([name, prog, acl, declines]), outcome, new]
    outcome \in {"ok", "generator-error", "not-exclusive", "other"} is what annet.gen._old_new_per_device did with real PartialGenerators
    interpreting the programs; new is result.new when outcome = "ok".                                                                  *)
 EXTENDS GenRun, TLC, Json, IOUtils
 Recs == ndJsonDeserialize(IOEnv.TRACE_FILE)
 VARIABLE i
-Verdict(r) ==
-  LET n == Len(r.gens)
+\* a generator may decline the device (supports_device() false, or NotSupportedDevice raised from its run): it then takes no part in the
+\* run -- neither its lines nor its ACL -- and the run goes on with the others
+Verdict(r0) ==
+  LET r == [r0 EXCEPT !.gens = SelectSeq(r0.gens, LAMBDA g : ~g.declines)]
+      n == Len(r.gens)
       T(k) == Tree(r.gens[k].prog)
       mustErr == \E k \in 1..n : HasUncovered(r.prefix, T(k), r.gens[k].acl, <<>>)
       cleanAll == \A k \in 1..n : AllInLower(r.prefix, T(k), r.gens[k].acl, <<>>)
